@@ -94,7 +94,7 @@ func originField(v ssa.Value) string {
 }
 
 func C38(c *Ctx) {
-	c.Note("path-sensitivity beyond the guards that lead directly to an error return (an earlier `continue` that makes a guard unreachable is caught only if it shows up as a changed loop structure); JSON decoding before Validate")
+	c.Note("path-sensitivity beyond dominance of loop back edges; JSON decoding before Validate")
 	const r1 = "K14.rejection-table"
 	c.Rule(r1, "config.(*File).Validate: every listed defect class has a guard whose taken edge returns a non-nil error – Store.StoreID == 0; duplicate Store.StoreID (present in the seen-set); Region.ID == 0; Peer.StoreID == 0; Peer.PeerID == 0; Peer.StoreID / non-zero Region.LeaderStoreID absent from the store set; each work-dir template non-empty and lacking \"{id}\" – and every error return of Validate is reached only through guards of those classes (plus the nil-receiver guard): nothing else is rejected")
 	fn := c.Fn("config", "File.Validate")
@@ -201,6 +201,59 @@ func C38(c *Ctx) {
 				okOrder := len(ins) == 1 && blockReaches(ins[0].Block(), b) && !blockReaches(b, ins[0].Block())
 				c.Decide(okOrder, r2, key(fn, "lookup("+qualField(lk.Index)+")-after-store-loop"), in.Pos(), 2, "store set is complete before it is consulted", "a membership lookup can run before the store set is complete")
 			}
+		}
+	}
+	// every iteration passes through the per-element guards: the guard's test block dominates every
+	// back edge of its innermost loop (a `continue` placed before the guard breaks this)
+	const r3 = "K1.guards-on-every-iteration"
+	c.Rule(r3, "each per-element rejection guard of Validate (zero/duplicate store id, zero region id, zero peer store/peer id, peer store membership) dominates every back edge of the innermost loop that contains it, so no element can reach the next iteration without having been tested")
+	perElem := map[string]bool{"zero:Store.StoreID": true, "present:Store.StoreID": true, "zero:Region.ID": true, "zero:Peer.StoreID": true, "zero:Peer.PeerID": true, "absent:Peer.StoreID": true}
+	var hdrs []*ssa.BasicBlock
+	for _, b := range fn.Blocks {
+		if b.Comment == "rangeindex.loop" {
+			hdrs = append(hdrs, b)
+		}
+	}
+	checked := map[string]bool{}
+	for _, b := range fn.Blocks {
+		ifi := ifOf(b)
+		if ifi == nil {
+			continue
+		}
+		cl := ""
+		for _, pol := range []bool{true, false} {
+			if k := condClass(ifi.Cond, pol); perElem[k] {
+				cl = k
+			}
+		}
+		if cl == "" {
+			continue
+		}
+		// innermost loop containing b
+		var inner map[*ssa.BasicBlock]bool
+		var hdr *ssa.BasicBlock
+		for _, h := range hdrs {
+			l := NaturalLoop(h)
+			if l[b] && (inner == nil || len(l) < len(inner)) {
+				inner, hdr = l, h
+			}
+		}
+		if hdr == nil {
+			c.Fail(r3, key(fn, "guard:"+cl+"#in-loop"), ifi.Cond.Pos(), 1, "per-element guard %s is not inside a loop", cl)
+			continue
+		}
+		bad := 0
+		for _, p := range hdr.Preds {
+			if hdr.Dominates(p) && !b.Dominates(p) {
+				bad++
+			}
+		}
+		checked[cl] = true
+		c.Decide(bad == 0, r3, key(fn, "guard:"+cl+"#dominates-back-edges"), ifi.Cond.Pos(), len(hdr.Preds)+1, "tested on every iteration", fmt.Sprintf("%d path(s) reach the next iteration without testing `%s`: an element with that defect can be accepted", bad, cl))
+	}
+	for cl := range perElem {
+		if !checked[cl] {
+			c.Fail(r3, key(fn, "guard:"+cl+"#dominates-back-edges"), fn.Pos(), 1, "per-element guard %s not found as a branch condition", cl)
 		}
 	}
 	succ := 0
